@@ -441,6 +441,26 @@ func c12Run(c *mon.Ctx, csAny any) {
 
 			out.Invert(*a)
 			checkOut(oracle.FInv0(av), "Invert")
+
+			// the caller goes on working with the result, then the same operation is asked for again into another receiver
+			// (a "last result" memo that keeps a pointer to the caller's receiver hands back what the caller made of it)
+			if cs.Alias == "" || cs.Alias == "none" {
+				out.Add(out, field.New().One()).Square(out)
+
+				again := field.New()
+				again.Invert(*a)
+
+				if mon.FEVal(again).Cmp(oracle.FInv0(av)) != 0 || !mon.FECanonical(again) {
+					c.Fail(fmt.Sprintf("Invert(%s) asked for a second time, after the caller changed the first result, gives %x, want %x", cs.A, mon.FEVal(again), oracle.FInv0(av)), "field-invert-second-call", nil)
+				}
+
+				again.Square(a)
+
+				sq2 := field.New().Square(a)
+				if mon.FEVal(sq2).Cmp(oracle.FSqr(av)) != 0 {
+					c.Fail(fmt.Sprintf("Square(%s) asked for a second time, after the caller changed the first result, is wrong", cs.A), "field-square-second-call", nil)
+				}
+			}
 		case "set":
 			out.Set(a)
 			checkOut(av, "Set")
